@@ -17,11 +17,14 @@ from translate import release as tr_release
 GEN = [tr_release.generate]
 
 
-def run_find(n, arrival, kind, timeout=3.0):
+def run_find(n, arrival, kind, timeout=3.0, subop=None):
     """kind: 'find' | 'get'.  arrival in 0..n: the release request is sent just before the handler's
     yield number `arrival` (arrival == n: after the last yield, before the handler returns);
     arrival == n + 1: right after the operation completed (between messages);
-    arrival == n + 2: with no operation at all (idle)."""
+    arrival == n + 2: with no operation at all (idle).
+    subop = (i, answers) (C-GET only; `arrival` is ignored): the release request is sent by the peer's C-STORE handler
+    while sub-operation number i is in flight; the peer then answers the C-STORE (answers=True) or keeps quiet until
+    the acceptor's DIMSE timeout has passed (answers=False)."""
     from io import BytesIO
 
     from pydicom.dataset import Dataset
@@ -46,8 +49,23 @@ def run_find(n, arrival, kind, timeout=3.0):
         ds.SOPClassUID, ds.SOPInstanceUID = CTImageStorage, f"1.2.3.{i + 1}"
         return ds
 
+    sub_calls = []
+    peer_done = threading.Event()
+
+    def h_peer_store(event):
+        k = len(sub_calls)
+        sub_calls.append(k)
+        if subop is not None and k == subop[0]:
+            from pynetdicom.pdu_primitives import A_RELEASE as _REL
+
+            event.assoc.dul.send_pdu(_REL())
+            at_point.set()
+            if not subop[1]:
+                peer_done.wait(3 * timeout + 4.0)  # never answers while the scenario runs
+        return 0x0000
+
     def wait_point(i):
-        if i == arrival:
+        if subop is None and i == arrival:
             at_point.set()
             go.wait(timeout)
             time.sleep(0.05)  # let the PDU reach the acceptor's provider
@@ -76,6 +94,9 @@ def run_find(n, arrival, kind, timeout=3.0):
     released, aborted = [], []
     ae = AE()
     ae.acse_timeout = ae.dimse_timeout = ae.network_timeout = timeout
+    if subop is not None:
+        # only the DIMSE timeout is short: an abort for any other reason would make the case vacuous
+        ae.acse_timeout = ae.network_timeout = 30
     ae.add_supported_context(F)
     ae.add_supported_context(G)
     ae.add_supported_context(CTImageStorage, scu_role=True, scp_role=True)
@@ -95,7 +116,7 @@ def run_find(n, arrival, kind, timeout=3.0):
     t0 = time.monotonic()
     a = cl.associate(
         "127.0.0.1", port, ext_neg=[build_role(CTImageStorage, scp_role=True)],
-        evt_handlers=[(evt.EVT_PDU_RECV, lambda e: seen.append(type(e.pdu).__name__)), (evt.EVT_C_STORE, lambda e: 0x0000)],
+        evt_handlers=[(evt.EVT_PDU_RECV, lambda e: seen.append(type(e.pdu).__name__)), (evt.EVT_C_STORE, h_peer_store)],
     )
     out = {"established": a.is_established}
     try:
@@ -115,29 +136,35 @@ def run_find(n, arrival, kind, timeout=3.0):
                 out["scu_exc"] = repr(exc)
 
         th = None
-        if arrival <= n:
+        if subop is not None:
+            th = threading.Thread(target=consume, daemon=True)
+            th.start()
+            at_point.wait(timeout)
+        elif arrival <= n:
             th = threading.Thread(target=consume, daemon=True)
             th.start()
             at_point.wait(timeout)
         elif arrival == n + 1:
             consume()
-        # the release request goes on the wire now
-        a.dul.send_pdu(A_RELEASE())
+        # the release request goes on the wire now (sub-operation arrivals: the C-STORE handler has sent it)
+        if subop is None:
+            a.dul.send_pdu(A_RELEASE())
         go.set()
-        deadline = time.monotonic() + timeout + 1.0
-        while time.monotonic() < deadline and "A_RELEASE_RP" not in seen:
+        deadline = time.monotonic() + (timeout + 1.0 if subop is None or subop[1] else 2 * timeout + 2.0)
+        while time.monotonic() < deadline and "A_RELEASE_RP" not in seen and "A_ABORT_RQ" not in seen:
             time.sleep(0.01)
         if th is not None:
             th.join(timeout + 1.0)
         time.sleep(0.1)
         out.update(
-            rp="A_RELEASE_RP" in seen, pdus=list(seen), pending=len(pend), wall=time.monotonic() - t0,
+            rp="A_RELEASE_RP" in seen, abort_seen="A_ABORT_RQ" in seen, subops=len(sub_calls), pdus=list(seen), pending=len(pend), wall=time.monotonic() - t0,
             acc_released=bool(acc.get("assoc") and acc["assoc"].is_released),
             acc_aborted=bool(acc.get("assoc") and acc["assoc"].is_aborted),
             n_released=len(released), n_aborted=len(aborted),
         )
         return out
     finally:
+        peer_done.set()
         try:
             a.abort()
         except Exception:
@@ -146,12 +173,13 @@ def run_find(n, arrival, kind, timeout=3.0):
 
 
 def _job(args):
-    n, arrival, kind = args
+    n, arrival, kind = args[:3]
+    subop = args[3] if len(args) > 3 else None
     box = {}
 
     def body():
         try:
-            box["r"] = run_find(n, arrival, kind)
+            box["r"] = run_find(n, arrival, kind, timeout=1.0 if subop else 3.0, subop=subop)
         except Exception:
             import traceback
 
@@ -181,18 +209,39 @@ def run(ctx):
         jobs = jobs[:24]
     else:
         jobs = jobs * 6
+    # the release request arrives while a C-STORE sub-operation of the C-GET is in flight
+    # (a peer that has requested release may not send P-DATA any more, PS3.8 Sta7: it cannot answer the sub-operation,
+    # so only the never-answered variant is a conformant peer)
+    sub = [(n, 0, "get", (i, False)) for n in (1, 2, 3) for i in range(n)]
+    if ctx.quick:
+        sub = [j for j in sub if j[0] <= 2]
+    jobs += sub
     pool = mp.get_context("fork").Pool(processes=12, maxtasksperchild=10)
     try:
         results = pool.map(_job, jobs, chunksize=1)
     finally:
         pool.terminate()
         pool.join()
-    model = ctx.lean([["release.serve", n, a, False] for n, a, _ in jobs])
-    for (n, arrival, kind), r, m in zip(jobs, results, model):
-        case = ["release", kind, n, arrival]
-        ctx.case(case, nontrivial=arrival <= n, kind=f"{kind}:{'in-loop' if arrival <= n else ('between' if arrival == n + 1 else 'idle')}")
+    # a sub-operation arrival that the peer then answers is, for the handler loop, an arrival before the next yield
+    model = ctx.lean([["release.serve", j[0], (j[3][0] + 1 if len(j) > 3 else j[1]), False] for j in jobs])
+    for job, r, m in zip(jobs, results, model):
+        n, arrival, kind = job[:3]
+        subop = job[3] if len(job) > 3 else None
+        case = ["release", kind, n, arrival] + ([list(subop)] if subop else [])
+        if subop:
+            ctx.case(case, nontrivial=True, kind=f"get:sub-operation:{'answered' if subop[1] else 'never-answered'}")
+        else:
+            ctx.case(case, nontrivial=arrival <= n, kind=f"{kind}:{'in-loop' if arrival <= n else ('between' if arrival == n + 1 else 'idle')}")
         if r.get("hang") or "harness_error" in r or not r.get("established"):
             ctx.diff(case, r, "n/a", "scenario harness failed")
+            continue
+        if subop and not subop[1]:
+            # the peer never answers the sub-operation: pynetdicom may abort (DIMSE timeout) - the case the property
+            # excludes - but it must not stay established with the release request swallowed
+            if not (r["abort_seen"] or r["acc_aborted"]) and not (r["rp"] and r["acc_released"]):
+                ctx.fail("release-not-answered:get:sub-operation-timeout",
+                         f"get n={n}: release request sent during sub-operation {subop[0]} (never answered): the peer saw {r['pdus']}; "
+                         f"the acceptor neither answered the release nor aborted (released={r['acc_released']} aborted={r['acc_aborted']})", case)
             continue
         m_pending, m_final, m_rp, m_rel = m[0], m[1] == "T", m[2] == "T", m[3] == "T"
         # property oracle on the real run
@@ -210,7 +259,12 @@ def run(ctx):
 
 
 def replay(ctx, case):
-    _, kind, n, arrival = case["case"]
-    r = run_find(n, arrival, kind)
+    c = case["case"]
+    kind, n, arrival = c[1], c[2], c[3]
+    subop = tuple(c[4]) if len(c) > 4 else None
+    r = run_find(n, arrival, kind, timeout=1.0 if subop else 3.0, subop=subop)
+    if subop and not subop[1]:
+        print(r)
+        return 0 if (r.get("abort_seen") or r.get("acc_aborted") or (r.get("rp") and r.get("acc_released"))) else 1
     print(r)
     return 0 if r.get("rp") and r.get("acc_released") else 1
